@@ -218,8 +218,13 @@ func (wg *WaitGroup) VrtEnabled(kind vrt.OpKind, t *vrt.Thread) bool {
 	return true
 }
 
+// Add, Done and Wait are thin instrumented wrappers so that the race detector's call stack shows the
+// caller when the modelled reads/writes of the semaphore word (Add concurrent with Wait) are reported.
+//go:noinline
+func (wg *WaitGroup) Add(delta int) { wg.add(delta) }
+
 //go:norace
-func (wg *WaitGroup) Add(delta int) {
+func (wg *WaitGroup) add(delta int) {
 	if !vrt.Managed() {
 		wg.real.Add(delta)
 		return
@@ -250,10 +255,14 @@ func (wg *WaitGroup) Add(delta int) {
 	}
 }
 
-func (wg *WaitGroup) Done() { wg.Add(-1) }
+//go:noinline
+func (wg *WaitGroup) Done() { wg.add(-1) }
+
+//go:noinline
+func (wg *WaitGroup) Wait() { wg.wait() }
 
 //go:norace
-func (wg *WaitGroup) Wait() {
+func (wg *WaitGroup) wait() {
 	if !vrt.Managed() {
 		wg.real.Wait()
 		return
